@@ -103,3 +103,18 @@ Theorem C01_obligation_on_code_partial : forall reenc : str -> str,
 Proof. exact Server_on_code.obligation_partial_on_code. Qed.
 Print Assumptions C01_obligation_on_code_partial.
 
+(* ---- tie to the code (server/tls_protocol.py: what the PyOpenSSL wrapper does with the response writes and the close): theorems of coq/Equiv/EquivTls.v (statements there), re-checked against the definitions
+   regenerated from /repo's working tree; see DESIGN.md 11.8 ---- *)
+From NV Require Equiv.EquivTls.
+Theorem C01_code_wrapper_write_tie : ltac:(let t := type of @EquivTls.wrapper_write_tie in exact t).
+Proof. exact (@EquivTls.wrapper_write_tie). Qed.
+Print Assumptions C01_code_wrapper_write_tie.
+
+Theorem C01_code_wrapper_close_spec : ltac:(let t := type of @EquivTls.wrapper_close_spec in exact t).
+Proof. exact (@EquivTls.wrapper_close_spec). Qed.
+Print Assumptions C01_code_wrapper_close_spec.
+
+Theorem C01_code_trun_tie : ltac:(let t := type of @EquivTls.trun_tie in exact t).
+Proof. exact (@EquivTls.trun_tie). Qed.
+Print Assumptions C01_code_trun_tie.
+
